@@ -32,7 +32,10 @@ RULE = (
 )
 ASSUMPTIONS = [
     "values stay inside the classes the statement lists: no lone surrogates, integers within 64 bits, no NaN; strings <= 2000 characters",
-    "timestamps carry whole-minute UTC offsets, years 1900-2200; equality of timestamps means the same instant",
+    "timestamps carry whole-minute UTC offsets (fixed offsets, IANA zones incl. both folds of DST-fold wall times, naive = UTC), years "
+    "1900-2200; equality of timestamps means the same canonical observation - wall clock fields + UTC offset, as observe.odt - both for "
+    "the value read back and for the stored text parsed with datetime.fromisoformat (the current code keeps the offset; the tzinfo "
+    "object kind is not compared)",
     "type names starting with 'sqlite_' are not generated (SQLite reserves that prefix for its own tables)",
     "names of one case never differ only in letter case, except in the dedicated collision cases, which are classified as the "
     "known finding sqlite-case-insensitive-identifiers",
@@ -90,6 +93,8 @@ def generate(ctx):
             kind = "evolve"  # one type, three versions
         elif i % 10 == 1:
             kind = "sqlite-names"  # type names that start with "sqlite" without being the reserved "sqlite_" prefix
+        elif i % 10 == 2:
+            kind = "dt-equal"  # timestamps that compare equal without being the same value, inside one database
         elif i % 10 == 9:
             kind = "sideways"  # later versions drop fields and bring new ones (not a superset of the table)
         yield {"k": kind, "s": subseed("c18", ctx.seed, ctx.shard, i)}
@@ -147,7 +152,48 @@ BYTES = [b"", b"\x00", b"\xff\xfe", bytes(range(256)), b"plain ascii", b"\x00" *
 OFFSETS = [0, 0, 120, -210, 345, 840, -720, 60, 330, -1]
 
 
-def _datetime(rng):
+# A few fixed instants, each presented under many UTC offsets: values that compare equal (aware datetimes compare and hash
+# by instant) without being the same value.  The last two lie in DST folds (02:30 Europe/Amsterdam on 2023-10-29 and 01:30
+# America/New_York on 2023-11-05 exist twice).
+EQUAL_INSTANTS = [_dt.datetime(2023, 6, 15, 12, 0, 0, tzinfo=UTC), _dt.datetime(2024, 1, 1, 12, 0, 0, 250000, tzinfo=UTC),
+                  _dt.datetime(1999, 12, 31, 23, 59, 59, 999999, tzinfo=UTC), _dt.datetime(2023, 10, 29, 0, 30, tzinfo=UTC),
+                  _dt.datetime(2023, 10, 29, 1, 30, tzinfo=UTC)]
+PRESENTATIONS = ["naive", "utc", 120, -420, 330, 0, -300, 60, "Europe/Amsterdam", "America/New_York", "Asia/Kolkata", "Australia/Lord_Howe"]
+FOLD_PAIRS = [("Europe/Amsterdam", (2023, 10, 29, 2, 30, 0)), ("America/New_York", (2023, 11, 5, 1, 30, 0)),
+              ("Europe/Amsterdam", (2023, 10, 29, 2, 0, 0, 500000))]
+
+
+def _zone(name):
+    import zoneinfo
+
+    try:
+        return zoneinfo.ZoneInfo(name)
+    except Exception:  # noqa: BLE001 - no tz database: fall back to a fixed offset (workload only)
+        return _dt.timezone(_dt.timedelta(hours=1))
+
+
+def present(instant, how):
+    """The same instant under another UTC offset / zone / as naive UTC."""
+    if how == "naive":
+        return instant.replace(tzinfo=None)
+    if how == "utc":
+        return instant
+    if isinstance(how, int):
+        return instant.astimezone(_dt.timezone(_dt.timedelta(minutes=how)))
+    return instant.astimezone(_zone(how))
+
+
+def _equal_family_datetime(rng):
+    r = rng.random()
+    if r < 0.25:
+        zone, wall = rng.choice(FOLD_PAIRS)
+        return _dt.datetime(*wall, tzinfo=_zone(zone), fold=rng.choice([0, 1]))  # same wall clock, same zone, both folds
+    return present(rng.choice(EQUAL_INSTANTS), rng.choice(PRESENTATIONS))
+
+
+def _datetime(rng, family=0.25):
+    if rng.random() < family:
+        return _equal_family_datetime(rng)
     d = _dt.datetime(rng.randint(1900, 2200), rng.randint(1, 12), rng.randint(1, 28), rng.randint(0, 23), rng.randint(0, 59), rng.randint(0, 59),
                      rng.choice([0, 0, rng.randint(1, 999999)]))
     if rng.random() < 0.15:
@@ -213,6 +259,8 @@ def build_case(case, thorough=False):
         tnames[1] = tnames[0].swapcase() if tnames[0].swapcase() != tnames[0] else tnames[0] + "X"
         if tnames[1].lower() != tnames[0].lower():
             tnames = ["t/x", "t/X"]
+    if kind == "dt-equal":
+        return build_dt_equal(rng, tnames, thorough)
     versions = []
     for t in tnames:
         taken = {"a", "key", "select"} if kind in ("collide-fields", "collide-evolve") else set()
@@ -270,6 +318,42 @@ def build_case(case, thorough=False):
             kw["_generated"] = _datetime(rng)
         plan.append(("w", vi, kw))
         if rng.random() < 0.1:
+            plan.append(("f",))
+    return versions, plan
+
+
+def build_dt_equal(rng, tnames, thorough):
+    """Types with 1-2 timestamp fields; the plan walks pairs and runs of equal-instant values with different offsets (both
+    orders), fold=0/fold=1 pairs (both orders) and naive vs aware-UTC, spread over the tables of ONE database."""
+    versions = []
+    for t in tnames[:2]:
+        taken = set()
+        names = _unique(rng, _field_name, rng.choice([2, 3]), taken)
+        fields = [("datetime", names[0]), ("string", names[1])] + [("datetime", n) for n in names[2:]]
+        versions.append((t, fields))
+    seq = []
+    for inst in rng.sample(EQUAL_INSTANTS, 3):
+        hows = rng.sample(PRESENTATIONS, rng.choice([2, 3, 4]))
+        if rng.random() < 0.5:
+            hows = ["naive", "utc"] + hows if rng.random() < 0.5 else ["utc", "naive"] + hows
+        seq.append([present(inst, h) for h in hows])
+    for zone, wall in FOLD_PAIRS:
+        order = [0, 1] if rng.random() < 0.5 else [1, 0]
+        seq.append([_dt.datetime(*wall, tzinfo=_zone(zone), fold=f) for f in order])
+    rng.shuffle(seq)
+    values = [v for run in seq for v in run]
+    if rng.random() < 0.5:
+        values = values + values[::-1]  # and the other way round
+    plan = []
+    for i, v in enumerate(values):
+        vi = rng.randrange(len(versions))
+        kw = {}
+        for ftype, fname in versions[vi][1]:
+            kw[fname] = v if ftype == "datetime" and (fname == versions[vi][1][0][1] or rng.random() < 0.5) else _value(rng, ftype)
+        if rng.random() < 0.5:
+            kw["_generated"] = values[(i * 7 + 3) % len(values)]
+        plan.append(("w", vi, kw))
+        if rng.random() < 0.08:
             plan.append(("f",))
     return versions, plan
 
@@ -359,7 +443,9 @@ def value_matches(ftype, wv, rv):
     if rv is None:
         return False
     if ftype == "datetime":
-        return isinstance(rv, _dt.datetime) and rv.utcoffset() is not None and instant_us(rv) == instant_us(wv)
+        # canonical observation: wall clock fields + utcoffset (never datetime ==, which only sees the instant)
+        return (isinstance(rv, _dt.datetime) and rv.utcoffset() is not None and instant_us(rv) == instant_us(wv)
+                and observe.odt(rv) == observe.odt(wv))
     if ftype == "float":
         return isinstance(rv, float) and float(rv) == float(wv)
     if ftype == "varint":
@@ -526,6 +612,16 @@ def check_content(ctx, versions, records, plan, path, bs, problems):
                 if wv is None:
                     if cell is not None:
                         bad("values", "an unset field is not stored as NULL", table=t, row=i, column=cn, cell=repr(cell)[:80])
+                elif ft == "datetime":
+                    # the stored text of THIS row must denote the value written for this row: same wall clock, same offset
+                    ctx.event("raw_timestamp_cells_checked")
+                    try:
+                        stored = observe.odt(_dt.datetime.fromisoformat(cell)) if isinstance(cell, str) else None
+                    except ValueError:
+                        stored = None
+                    if stored is None or stored[-1] is None or stored != observe.odt(wv):
+                        bad("values", "the stored cell of a timestamp does not denote the value written for that row (wall clock + UTC offset)",
+                            table=t, row=i, column=cn, written=_txt(wv, lambda v: v.isoformat()), cell=repr(cell)[:80])
                 elif ft in ("string", "wstring", "varint", "float", "bytes"):
                     same = (type(cell) is {"string": str, "wstring": str, "varint": int, "float": float, "bytes": bytes}[ft]) and value_matches(ft, wv, cell)
                     if not same:
@@ -642,6 +738,21 @@ def execute(ctx, case):
                 ctx.event("field_names_python_keyword")
             if fn != fn.lower() and fn != fn.upper():
                 ctx.event("field_names_mixed_case")
+    seen_dt = {}
+    for r in records:
+        for ftype, fname in list(r._desc.get_field_tuples()) + [("datetime", "_generated")]:
+            v = getattr(r, fname) if ftype == "datetime" else None
+            if v is None:
+                continue
+            o = tuple(observe.odt(v))
+            key = (instant_us(v))
+            if key in seen_dt and o not in seen_dt[key]:
+                ctx.event("timestamps_equal_instant_other_offset")
+            wkey = ("wall", o[1:8], str(getattr(v, "tzinfo", None)))
+            if wkey in seen_dt and o not in seen_dt[wkey]:
+                ctx.event("timestamps_same_wall_clock_other_fold")
+            seen_dt.setdefault(key, set()).add(o)
+            seen_dt.setdefault(wkey, set()).add(o)
     table_cols = {}
     for step in plan:
         if step[0] != "w":
@@ -699,6 +810,9 @@ def finish(ctx):
     ctx.require(ev.get("commit_points_seen", 0) > 0, "the second connection never saw a commit point")
     ctx.require(ev.get("polls_busy", 0) * 10 <= ev.get("polls", 1), "the second connection was locked out in more than 10% of the polls")
     ctx.require(ev.get("dump_comparisons", 0) > 0, "no dump was compared across batch sizes")
+    ctx.require(ev.get("timestamps_equal_instant_other_offset", 0) > 0 and ev.get("timestamps_same_wall_clock_other_fold", 0) > 0
+                and ev.get("raw_timestamp_cells_checked", 0) > 0,
+                "no database held equal-instant timestamps with different offsets and a fold=0/fold=1 pair")
     ctx.require(ev.get("type_names_starting_with_sqlite", 0) > 0, "no type name starting with 'sqlite' was written")
     ctx.require(ev.get("versions_not_superset_with_new_field", 0) > 0, "no descriptor evolution with a non-superset version bringing a new field")
     ctx.require(ev.get("read_values_checked", 0) > 0 and ev.get("raw_cells_checked", 0) > 0, "no value was compared after reading back")
